@@ -12,3 +12,11 @@ package nas
 //@ pure
 //@ ensures size: len(result0) < 1<<16
 //@ ensures some: result1 != nil || len(result0) >= 1
+
+// The plain decoder: abstract; the byte string it is given is recorded in the
+// ghost log "nas.decode" so that callers can be held to what they pass in.
+
+//@ func (*Message).PlainNasDecode
+//@ trusted
+//@ ghostlog nas.decode: *byteArray
+//@ assigns a
